@@ -30,8 +30,8 @@ def run(R):
         R.mc("MC_Edwards", c, timeout=3000)
     plan = [("default", {"VERIF_N": 36, "VERIF_BIG": 1}), ("noavx2", {"VERIF_N": 18, "VERIF_BIG": 0})]
     if R.tier == "thorough":
-        plan = [("default", {"VERIF_N": 450, "VERIF_BIG": 2}), ("noavx2", {"VERIF_N": 200, "VERIF_BIG": 2}),
-                ("purego", {"VERIF_N": 200, "VERIF_BIG": 2}), ("force32bit", {"VERIF_N": 200, "VERIF_BIG": 2})]
+        plan = [("default", {"VERIF_N": 300, "VERIF_BIG": 2}), ("noavx2", {"VERIF_N": 120, "VERIF_BIG": 2}),
+                ("purego", {"VERIF_N": 120, "VERIF_BIG": 2}), ("force32bit", {"VERIF_N": 120, "VERIF_BIG": 2})]
     for lab, envx in plan:
         files = ovl.record(R, "curve", ovl.CURVE_FILES, "TestVerifRecC03", lab, envx)
         R.count_events(files, key=lambda e: e.get("op", "?") + ":" + e.get("kind", "?"))
